@@ -243,7 +243,7 @@ def final(ctx):
         inner = [l for l in nodes_of_type(h, ast.For)]
         cl = _cleanup_calls(h)
         ctx.check(bool(inner) and len(cl) == 1 and unparse(cl[0]) == "_CLEANUP_FUNCS[rtype](name)" and in_block(cl[0], inner[0].body), cl[0] if cl else h, "each remaining name is cleaned with its type's function")
-        ok2 = cl and any(isinstance(a, ast.Try) and in_block(cl[0], a.body) and any(handler_catches(x, ["Exception"]) for x in a.handlers) for a in ancestors(cl[0]))
+        ok2 = cl and inner and any(isinstance(a, ast.Try) and in_block(a, inner[0].body) and in_block(cl[0], a.body) and any(handler_catches(x, ["Exception"]) for x in a.handlers) for a in ancestors(cl[0]))
         ctx.check(bool(ok2), cl[0] if cl else h, "one failing clean-up does not prevent the others")
         calls = [c for s in fin for c in calls_in(s) if call_name(c) == h.name]
         ctx.check(len(calls) >= 2, calls[0] if calls else h, "the helper is used for both passes")
